@@ -37,7 +37,7 @@ func builtinJSONParse(call FunctionCall) Value {
 	value := builtinJSONParseToken(ctx, decoder)
 	if revive {
 		root := ctx.call.runtime.newObject()
-		root.put("", value, false)
+		root.defineProperty("", value, 0o111, false)
 		return builtinJSONReviveWalk(ctx, root, "")
 	}
 	return value
@@ -93,7 +93,10 @@ func builtinJSONParseToken(ctx builtinJSONParseContext, decoder *json.Decoder) V
 		obj := ctx.call.runtime.newObject()
 		for decoder.More() {
 			name, _ := decoder.Token()
-			obj.put(name.(string), builtinJSONParseToken(ctx, decoder), false)
+			// 15.12.2: members are created like those of an object initialiser
+			// ([[DefineOwnProperty]]), not assigned: inherited setters and
+			// read-only properties of Object.prototype do not interfere.
+			obj.defineProperty(name.(string), builtinJSONParseToken(ctx, decoder), 0o111, false)
 		}
 		decoder.Token() //nolint:errcheck // }
 		return objectValue(obj)
